@@ -37,7 +37,7 @@ TEMPLATE_SHAPE = {
     "ty": r"^⟨proc_macro2::Ident⟩ : ⟨proc_macro2::TokenStream⟩ \. ty \. clone \( \) ,$",
     "default": r"^⟨proc_macro2::Ident⟩ : ⟨proc_macro2::TokenStream⟩ \. default \. clone \( \) ,$",
     "generics": r"^⟨proc_macro2::Ident⟩ : :: darling :: FromGenerics :: from_generics \( & ⟨proc_macro2::TokenStream⟩ \. generics \) \? ,$",
-    "data": r"^⟨proc_macro2::Ident⟩ : ⟨alt ⟨syn::path::Path⟩ ¦ :: darling :: ast :: Data :: try_from ⟩ \( & ⟨proc_macro2::TokenStream⟩ \. data \) \? ,$",
+    "data": r"^⟨proc_macro2::Ident⟩ : ⟨alt (?:⟨syn::path::Path⟩ ¦ :: darling :: ast :: Data :: try_from|:: darling :: ast :: Data :: try_from ¦ ⟨syn::path::Path⟩) ⟩ \( & ⟨proc_macro2::TokenStream⟩ \. data \) \? ,$",
     "fields": r"^⟨proc_macro2::Ident⟩ : :: darling :: ast :: Fields :: try_from \( & ⟨proc_macro2::TokenStream⟩ \. fields \) \? ,$",
     "discriminant": r"^⟨proc_macro2::Ident⟩ : ⟨proc_macro2::TokenStream⟩ \. discriminant \. as_ref \( \) \. map \( \| \( _ , expr \) \| expr \. clone \( \) \) ,$",
     "bounds": r"^⟨proc_macro2::Ident⟩ : ⟨proc_macro2::TokenStream⟩ \. bounds \. clone \( \) \. into_iter \( \) \. collect :: < Vec < _ >> \( \) ,$",
@@ -82,18 +82,16 @@ def run(ctx):
         ctx.ob("C16.S.magic-name-fills-same-slot", PF % chain, "magic names", tab == want, "recognised %s, documented %s" % (tab, want))
         if f:
             # every other field goes down the chain unchanged
-            dele = [(b, t) for b, t in ctx.find_calls(f, r"ParseData>::parse_field$")]
-            ok = len(dele) == 1 and ctx.expr(f, dele[0][1]["args"][1]) == "a2"
-            if ok:
-                ds = ctx.pc_strs(f, dele[0][0])
-                ok = all(all(a.endswith("=False") for a in d if re.search(r', "\w+"\)=', a)) for d in ds)
+            cs = resalg.cases(ctx, f)
+            plain = [(c, v) for c, v in cs if not any(re.search(r', "\w+"\)=True$', a) for a in c)]
+            ok = bool(plain) and all(re.match(r"^<[^ ]+ as darling_core::options::ParseData>::parse_field\(self\.\w+, a2\)$", v) for c, v in plain)
             ctx.ob("C16.G.ordinary-fields-delegated", f.key, "_ => base.parse_field(field)", ok, "ordinary fields must reach the container with the same field")
     # the names are matched against the Rust field name (before any rename)
     for chain in MAGIC:
         f = ctx.fn(PF % chain)
         if f:
-            src = [ctx.expr(f, t["args"][0]) for b, t in ctx.find_calls(f, r"Option::<T>::as_deref$")]
-            ctx.ob("C16.G.matched-on-rust-name", f.key, "field.ident.as_ref().map(to_string).as_deref()", any("a2.ident" in s for s in src), "%s" % [s[:120] for s in src])
+            src = sorted({m.group(1) for c, v in resalg.cases(ctx, f) for a in c for m in [re.match(r'^.*PartialEq for str>::eq\((.*), "\w+"\)=(?:True|False)$', a)] if m})
+            ctx.ob("C16.G.matched-on-rust-name", f.key, "field.ident.as_ref().map(to_string).as_deref()", bool(src) and all("a2.ident" in s for s in src), "%s" % [s[:120] for s in src])
     # ---------------------------------------------------------------- options → impl wiring and templates
     for gen, (opts, fields) in IMPLS.items():
         fr = ctx.fn("darling_core::options::%s::<impl core::convert::From<&'a darling_core::options::%s> for darling_core::codegen::%s>::from" % (
@@ -117,25 +115,27 @@ def run(ctx):
         if not g:
             continue
         T = tpl.Templates(g)
-        # interpolations Option::map(as_ref(self.X), closure#k) → closure template
-        wired = {}
-        for tk in T.events:
-            if tk.kind == "interp" and tk.expr:
-                m = re.match(r"^core::option::Option::<T>::map\((?:as_ref\()?self\.(\w+)\)?, closure (.*?)\[", tk.expr)
-                if m:
-                    wired[m.group(1)] = m.group(2)
+        # the interpolation that carries magic member X: its source reads self.X (a closure handed
+        # to self.X.map, a helper called with self.X) or is assembled under `self.X is Some`
         for name, (rx, member) in fields.items():
-            ck = wired.get(name)
-            ok = False
-            txt = None
-            if ck:
-                for c in ctx.closures_of(g):
-                    if c.key == ck:
-                        Tc = tpl.Templates(c)
-                        txts = [Tc.text(s) for s in Tc.root_streams()]
-                        txt = txts[-1] if txts else ""
-                        ok = re.match(TEMPLATE_SHAPE[member], txt) is not None
-            ctx.ob("C16.H.magic-initialiser", g.key, "magic member `%s`" % name, ok, "self.%s → %s → %s" % (name, (ck or "?").rsplit("::", 1)[-1], txt))
+            texts = []
+            for tk in T.events:
+                if tk.kind != "interp":
+                    continue
+                hit = bool(tk.expr) and re.search(r"\bself\.%s\b" % re.escape(name), tk.expr) is not None
+                if not hit and tk.src is not None:
+                    for alt in T.stream_alts(tk.src):
+                        if alt in T.by_stream and T.by_stream[alt]:
+                            pcs = ctx.pc_strs(g, T.by_stream[alt][0].blk)
+                            if pcs and all(ctx._sat(d, r"^is_some\(self\.%s\)=True$" % re.escape(name)) for d in pcs):
+                                hit = True
+                if hit:
+                    txt = " ".join(T.render_tok(tk))
+                    if txt not in texts:
+                        texts.append(txt)
+            texts = [x for x in texts if not any(x != y and x in y for y in texts)]      # pieces of the initialiser itself
+            ok = len(texts) == 1 and re.match(TEMPLATE_SHAPE[member].replace("⟨proc_macro2::TokenStream⟩", "(?:⟨proc_macro2::TokenStream⟩|__\\w+)"), texts[0]) is not None
+            ctx.ob("C16.H.magic-initialiser", g.key, "magic member `%s`" % name, ok, "self.%s → %s" % (name, texts))
         # the input the initialisers read is the fn's own parameter
         pn = [c for c in ctx.fns_matching(re.escape(gen.replace("<'_>", "<'_>")) + r" as darling_core::codegen::attr_extractor::ExtractAttribute>::param_name$")]
         if pn:
@@ -204,9 +204,12 @@ def run(ctx):
         if ok:
             r = aggs[0][2]["r"]
             m = {n: ctx.expr(f, o) for n, o in zip(r["fields"], r["ops"])}
-            ok = ("iter(a1.params)" in m.get("params", "").replace("syn::punctuated::Punctuated::<T, P>::", "") and "from_generic_param" in m.get("params", "") and "collect(" in m.get("params", "")
+            pi = r["fields"].index("params") if "params" in r["fields"] else None
+            cf = ctx.collection_form(f, r["ops"][pi]) if pi is not None else None
+            ok = (cf is not None and "a1.params" in cf["source"] and "from_generic_param" in cf["element"]
+                  and not (set(cf["chain"]) - {"map", "collect", "iter", "into_iter"})
                   and re.search(r"clone\(a1\.where_clause\)$", m.get("where_clause", "")) is not None)
-            detail = "%s" % {k: v[:160] for k, v in m.items()}
+            detail = "%s; params built as %s" % ({k: v[:160] for k, v in m.items()}, cf and {k: str(v)[:120] for k, v in cf.items()})
         ctx.ob("C16.G.generics-mirror", f.key, "params mapped in order + where clause cloned", ok, detail)
     # ---------------------------------------------------------------- [B] provenance of magic members
     pop = [b for b in derived.population(ctx) if b.key.rsplit("::", 1)[-1] in ("from_derive_input", "from_field", "from_variant", "from_type_param")]
